@@ -39,6 +39,7 @@ prop("C05", [H("H05_merge", common={"param": "maxDocs=1,tieReopen=1,maxOcc=1"}, 
              H("H05_merge", common={"param": "maxDocs=1,tieReopen=1,maxOcc=3,storeAll=1,always=1,fixAP=1,symTyp=0"}, quick={"wall": "140s", "shards": 4}, thorough={"wall": "1500s", "shards": 16, "param": "maxDocs=2,tieReopen=1,maxOcc=3,storeAll=1,always=1,fixAP=1,symTyp=0"})])
 prop("C06", KERNELS_CODEC[2:] + [H("H06_merge", quick={"wall": "140s", "shards": 16, "param": "maxDocs=1,tieReopen=1,lite=1"}, thorough={"wall": "1500s", "shards": 16, "param": "maxDocs=2,tieReopen=0"})])
 prop("C07", [
+    H("K2_uvarint_rt"), H("K2_uvarint_agree"),
     # everything crossed on small lists
     H("H07_seq", quick={"wall": "140s", "shards": 6, "param": "maxN=2,maxL=1,maxLocs=1,variants=3"}, thorough={"wall": "1500s", "shards": 16, "param": "maxN=4,maxL=3,maxLocs=1,variants=3"}),
     # longer lists (more chunks), no exclusion, all details: every postings set
@@ -46,7 +47,7 @@ prop("C07", [
     # longer lists, every exclusion set, every document a hit
     H("H07_seq", quick={"wall": "140s", "shards": 4, "param": "fixN=3,maxL=2,maxLocs=0,variants=1,allHits=1,allFlags=1"}, thorough={"wall": "1500s", "shards": 16, "param": "fixN=5,maxL=3,maxLocs=0,variants=1,allHits=1,allFlags=1"}),
 ])
-prop("C08", [H("H08_tmp"), H("H08_dict", quick={"wall": "175s", "shards": 16, "param": "provs=5,lite=1"}, thorough={"wall": "1500s", "shards": 16, "param": "provs=5"})])
+prop("C08", [H("H08_tmp"), H("H08_dict", quick={"wall": "175s", "shards": 16, "param": "provs=6,lite=1"}, thorough={"wall": "1500s", "shards": 16, "param": "provs=6"})])
 prop("C12", [H("K5_synonym"), H("H12_syn", common={"param": "maxSyn=2"}, quick={"wall": "140s", "shards": 16})])
 prop("C13", [H("H13_synmerge", quick={"wall": "140s", "shards": 16, "param": "maxSyn=1,emptyTerm=1,drop1=0,reopen=0"}, thorough={"wall": "1500s", "shards": 16, "param": "maxSyn=2,emptyTerm=1,twoGen=1"})])
 prop("C11", [H("H11_pool", quick={"wall": "100s", "shards": 8}), H("H11_effects", quick={"wall": "100s", "shards": 8})])
@@ -54,10 +55,12 @@ prop("C17", [H("H17_writeTo"), H("H17_persist"),
              H("H17_merge", common={"param": "mergeBuf=16"}, quick={"wall": "100s"}),
              H("H17_merge", common={"param": "mergeBuf=64"}, quick={"wall": "100s"})])
 prop("C18", [H("H18_cancel", quick={"wall": "100s"})])
-prop("C20", [H("H20_refs", common={"param": "maxOps=6"}, quick={"wall": "150s", "shards": 8}, thorough={"wall": "900s", "shards": 16, "param": "maxOps=8"}), H("H20_openfail")])
+prop("C20", [H("H20_refs", common={"param": "maxOps=6"}, quick={"wall": "150s", "shards": 8}, thorough={"wall": "900s", "shards": 16, "param": "maxOps=8"}), H("H20_openfail"), H("H20_lockset")])
 prop("C10", [H("H10_seq", quick={"wall": "140s", "shards": 16, "param": "aMax=1,bMax=1"}, thorough={"wall": "1500s", "shards": 16, "param": "aMax=2,bMax=2"})])
 prop("C09", [H("K1_chunksize"), H("K1_chunktable"), H("K7_footer"), H("K6_boundaries"),
              H("H09_layout", quick={"wall": "140s", "shards": 8, "param": "maxDocs=1,lite=1"}, thorough={"wall": "1500s", "shards": 16, "param": "maxDocs=2"}),
+             # one number at a time full width (all ten varint length classes of every layout element)
+             H("H09_layout", quick={"wall": "140s", "shards": 8, "param": "maxDocs=1,lite=1,wide=12"}, thorough={"wall": "1500s", "shards": 16, "param": "maxDocs=2,lite=1,wide=24"}),
              H("H09_layout_merged", quick={"wall": "140s", "shards": 8, "param": "lite=1"}, thorough={"wall": "1500s", "shards": 16})])
 VEC = {"vectors": True}
 prop("C14", [H("H14_search", common=dict(VEC), quick={"wall": "140s", "shards": 16, "param": "maxDocs=2,nCat=2,nQueries=1,nSims=1,maxK=3"}, thorough={"wall": "1500s", "shards": 16, "param": "maxDocs=2"})])
